@@ -467,6 +467,37 @@ def run_facade(case, obs=None):
     return out
 
 
+def run_copied_facade(tr, order):
+    """copy.copy of a live facade that has already moved blocks, the copy (or the original) then given another block size: each
+    facade's READ / WRITE buffers follow ITS OWN block size"""
+    import copy
+    rig = harness.Rig(tr, 0x00)
+    out = []
+    try:
+        rig.target.responder = lambda cdb: None
+        a = rig.facade(512)
+        a.read10(0, 1)
+        a.write10(0, 1, bytearray(512))
+        a.writesame16(0, 1, bytearray(512))
+        b = copy.copy(a)
+        if order == 0:
+            b.blocksize = 4096
+            pairs = ((a, 512), (b, 4096), (a, 512))
+        else:
+            a.blocksize = 4096
+            pairs = ((b, 512), (a, 4096), (b, 512))
+        for s, bs in pairs:
+            for m in ("read10", "read12", "read16"):
+                n = len(getattr(s, m)(0, 3).datain)
+                if n != 3 * bs:
+                    out.append(("copied_facade/%s" % m, "%s of 3 blocks through a facade whose block size is %d (a shallow copy of / copied from a facade with another block size) over %s: data-in of %d bytes" % (m, bs, tr, n)))
+            if s.blocksize != bs:
+                out.append(("copied_facade/blocksize", "facade block size reads %r, set %d" % (s.blocksize, bs)))
+    finally:
+        rig.close()
+    return out
+
+
 def run_subclass(tr):
     """a facade subclass that overrides the public `blocksize` accessor (a disk formatted with protection information: 512+8):
     the READ methods all size their buffers from the same source - one method going its own way gives a buffer that does not match"""
@@ -531,6 +562,8 @@ def run_two(case, obs=None):
 
 
 def replay(case):
+    if case[0] == "copied_facade":
+        return run_copied_facade(case[1], case[2])
     if case[0] == "two":
         return run_two(case)
     return run_facade(case) if case[0] == "facade" else run_case(case)
@@ -540,6 +573,17 @@ def run_partition(part, tier, seed):
     ensure_rigs()
     acc = Acc(seed)
     if part[0] == "two":
+        for order in (0, 1):
+            case = ["copied_facade", part[1], order]
+            acc.case(case, nontrivial=True, key=repr(case))
+            try:
+                v = run_copied_facade(part[1], order)
+            except Exception:
+                import traceback
+                v = [("harness_error", traceback.format_exc()[-600:])]
+            for kk, w in v:
+                acc.violation(kk, w, case)
+            acc.outcome((repr(case), tuple(x for x, _ in v)))
         for m in ("read10", "read12", "read16", "write10", "write12", "write16"):
             for order in (0, 1, 2) + ((3,) if m == "read10" else ()):
                 case = ["two", part[1], m, order]
